@@ -1,7 +1,9 @@
 // C02 correspondence runner: drives the REAL chains.ProposalsHash, BridgeContract.ProposalsHash and
 // Pallet.ProposalsHash (over fake clients) and the REAL signature assembly of the EVM executor's
 // executeBatch and the Substrate executor's executeProposal (through add-only hooks, with recording
-// bridges that capture the bytes passed to ExecuteProposals).
+// bridges that capture the bytes passed to ExecuteProposals); histories and concurrent use of the
+// digest functions (multi.go); the REAL Executor.Execute of both executors with real threshold
+// signing, and submission of batches whose members became executed meanwhile (exec.go).
 package main
 
 import (
@@ -38,10 +40,14 @@ type Prop struct {
 	Nonce  uint64 `json:"nonce"`
 	Rid    string `json:"rid"`  // hex, 32 bytes
 	Data   string `json:"data"` // hex
+	// exec (EVM): the gasLimit entry of the proposal's metadata (nil = no entry)
+	Limit *uint64 `json:"limit,omitempty"`
 }
 
+type tssSig = tsscommon.SignatureData
+
 type Case struct {
-	Mode string `json:"mode"` // digest | sig | sigsyn | sigraw | kec
+	Mode string `json:"mode"` // digest | sig | sigsyn | sigraw | kec | multi | exec | submit
 	// digest
 	Via      string `json:"via,omitempty"` // direct | evm | substrate
 	Version  string `json:"version,omitempty"`
@@ -60,6 +66,26 @@ type Case struct {
 	Rec string `json:"rec,omitempty"`
 	// kec
 	Msg string `json:"msg,omitempty"`
+	// multi: Tuples hashed in the order Order (indices, sequentially) or, with Workers > 0, by
+	// Workers goroutines at the same time (worker w hashes tuple w mod len(Tuples), Iters times)
+	Tuples  []Tuple `json:"tuples,omitempty"`
+	Order   []int   `json:"order,omitempty"`
+	Workers int     `json:"workers,omitempty"`
+	Iters   int     `json:"iters,omitempty"`
+	// exec: three relayers run the real Executor.Execute (Via evm | substrate; Chain, Contract) on the
+	// delivery Props with message id Mid; EVM batching by Cap (transactionMaxGas) and Tg
+	// (transferGasCost); Executed = positions executed at delivery, Flip = positions that become
+	// executed right after a digest containing them has been computed; Sched "p1" = dispatch under
+	// GOMAXPROCS(1).
+	// submit: the real executeBatch / executeProposal on the batch Props when the positions Executed
+	// are executed at the time the signature arrives
+	Mid      string `json:"mid,omitempty"`
+	Cap      uint64 `json:"cap,omitempty"`
+	Tg       uint64 `json:"tg,omitempty"`
+	Executed []int  `json:"executed,omitempty"`
+	Flip     []int  `json:"flip,omitempty"`
+	FailHash []int  `json:"fail_hash,omitempty"` // exec: the digest request for these (non-empty) batches fails at once
+	Sched    string `json:"sched,omitempty"`
 }
 
 type Obs struct {
@@ -74,6 +100,15 @@ type Obs struct {
 	PanicSub  bool   `json:"panic_sub,omitempty"`
 	Recovered bool   `json:"recovered,omitempty"`
 	PassedOK  bool   `json:"passed_ok,omitempty"` // proposals / gas limit reached ExecuteProposals unchanged
+	// multi
+	Seen []Seen `json:"seen,omitempty"`
+	// exec
+	Sessions []SessObs `json:"sessions,omitempty"`
+	Complete bool      `json:"complete,omitempty"`
+	Note     string    `json:"note,omitempty"`
+	// submit
+	SubEvm []Prop `json:"sub_evm,omitempty"`
+	SubSub []Prop `json:"sub_sub,omitempty"`
 }
 
 // ---- fakes -------------------------------------------------------------------------------------
@@ -255,6 +290,12 @@ func run(c Case) Obs {
 		return o
 	case "sigraw":
 		return assemble(unhex(c.R), unhex(c.S), unhex(c.Rec))
+	case "multi":
+		return runMulti(c)
+	case "exec":
+		return runExec(c)
+	case "submit":
+		return runSubmit(c)
 	}
 	panic("unknown mode " + c.Mode)
 }
@@ -379,6 +420,144 @@ func gen(r *vgen.Rng, tier string) []Case {
 		}
 		out = append(out, c)
 	}
+	var heavy []Case // kernel-heavy cases (several digests each): spread over the shards of cheap cases below
+	// --- the digest is a function of its arguments only: histories and concurrent use ------------------
+	smallProp := func() Prop {
+		p := randProp(r)
+		p.Data = hex.EncodeToString(r.Bytes(vgen.Pick(r, []int{0, 1, 20, 32, 40})))
+		return p
+	}
+	smallBatch := func(n int) []Prop {
+		var ps []Prop
+		for i := 0; i < n; i++ {
+			ps = append(ps, smallProp())
+		}
+		return ps
+	}
+	// tuples that differ pairwise in as little as possible: same contract on two chains, same chain
+	// with two contracts, the same batch for an EVM and a Substrate destination, two batches for one
+	// destination
+	tuples := func(n int) []Tuple {
+		chainA, chainB := int64(r.Range(1, 60000)), int64(r.Range(60001, 120000))
+		cA, cB := hex.EncodeToString(r.Bytes(20)), hex.EncodeToString(r.Bytes(20))
+		bA, bB := smallBatch(r.Range(1, 2)), smallBatch(r.Range(1, 2))
+		all := []Tuple{
+			{Via: "evm", Version: "3.1.0", Chain: chainA, Contract: cA, Props: bA},
+			{Via: "evm", Version: "3.1.0", Chain: chainB, Contract: cA, Props: bA},
+			{Via: "substrate", Version: "3.1.0", Chain: chainA, Contract: cA, Props: bB},
+			{Via: "evm", Version: "3.1.0", Chain: chainA, Contract: cB, Props: bB},
+			{Via: "direct", Version: "3.1.0", Chain: chainB, Contract: cB, Prefix: true, Props: bA},
+			{Via: "substrate", Version: "3.1.0", Chain: chainB, Contract: cA, Props: bA},
+			{Via: "direct", Version: "3.1.1", Chain: chainA, Contract: cA, Props: []Prop{}},
+			{Via: "evm", Version: "3.1.0", Chain: chainA, Contract: cA, Props: append(append([]Prop{}, bA...), bB...)},
+		}
+		r.Shuffle(len(all), func(i, j int) { all[i], all[j] = all[j], all[i] })
+		return all[:n]
+	}
+	for k := 0; k < 2*mul; k++ {
+		ts := tuples(4)
+		// A, B, A again, then a random walk that visits everything
+		order := []int{0, 1, 0, 2, 0, 3, 1}
+		for i := 0; i < 8; i++ {
+			order = append(order, r.Intn(len(ts)))
+		}
+		heavy = append(heavy, Case{Mode: "multi", Tuples: ts, Order: order})
+	}
+	for k := 0; k < 2*mul; k++ {
+		n := vgen.Pick(r, []int{4, 6})
+		heavy = append(heavy, Case{Mode: "multi", Tuples: tuples(n), Workers: vgen.Pick(r, []int{4, 8, 12, 16}), Iters: 1500})
+	}
+	// --- what is signed for a session and what is submitted with the signature ---------------------------
+	// the real executeBatch / executeProposal on a batch of which members are executed when the
+	// signature arrives
+	for k := 0; k < 6*mul; k++ {
+		n := r.Range(2, 4)
+		c := Case{Mode: "submit", Chain: randChain(r), Contract: randContract(r), Props: smallBatch(n)}
+		if k%2 == 0 {
+			// two transfers with the same deposit nonce from different origin domains
+			c.Props[n-1].Nonce, c.Props[n-1].Origin = c.Props[0].Nonce, c.Props[0].Origin^1
+		}
+		switch k % 3 {
+		case 0:
+			c.Executed = []int{r.Intn(n)}
+		case 1:
+			for i := 0; i < n; i++ {
+				if i != 0 && r.Bool() {
+					c.Executed = append(c.Executed, i)
+				}
+			}
+			c.Executed = append([]int{0}, c.Executed...)
+		default:
+			for i := 0; i < n; i++ {
+				c.Executed = append(c.Executed, i)
+			}
+		}
+		heavy = append(heavy, c)
+	}
+	// three relayers run the real Execute with real threshold signing
+	// deliveries with pairwise distinct (origin, nonce) keys, nonces in no particular order
+	distinctProp := func(have []Prop) Prop {
+		for {
+			p := smallProp()
+			p.Origin, p.Nonce = uint8(r.Range(1, 3)), uint64(r.Range(1, 40))
+			if len(have) == 1 {
+				// two transfers with the same deposit nonce from different origin domains
+				p.Origin, p.Nonce = have[0].Origin+1, have[0].Nonce
+			}
+			dup := false
+			for _, q := range have {
+				dup = dup || (q.Origin == p.Origin && q.Nonce == p.Nonce)
+			}
+			if !dup {
+				return p
+			}
+		}
+	}
+	execEvm := func(nBatches, per int, sched string, flips bool, failHash ...int) Case {
+		c := Case{Mode: "exec", Via: "evm", Mid: vgen.Pick(r, []string{"m", "msg-7", "a-1"}), Chain: randChain(r), Contract: randContract(r),
+			Tg: 100, Cap: uint64(per)*100 + 50, Sched: sched, FailHash: failHash}
+		n := nBatches * per
+		for i := 0; i < n; i++ {
+			c.Props = append(c.Props, distinctProp(c.Props))
+		}
+		if flips && per > 1 {
+			// at most per-1 members of a batch become executed between hashing and the signature
+			for b := 0; b < nBatches; b++ {
+				if b == 0 || r.Bool() {
+					c.Flip = append(c.Flip, b*per+r.Intn(per))
+				}
+			}
+		}
+		return c
+	}
+	execSub := func(n int, flips bool) Case {
+		c := Case{Mode: "exec", Via: "substrate", Mid: vgen.Pick(r, []string{"m", "sub-3"}), Chain: randChain(r)}
+		for i := 0; i < n; i++ {
+			c.Props = append(c.Props, distinctProp(c.Props))
+		}
+		if n > 1 && r.Bool() {
+			c.Executed = []int{r.Intn(n)} // already executed at delivery: not part of the batch
+		}
+		if flips {
+			for i := 0; i < n; i++ {
+				if len(c.Executed) > 0 && c.Executed[0] == i {
+					continue
+				}
+				c.Flip = append(c.Flip, i)
+			}
+			c.Flip = c.Flip[:len(c.Flip)-1] // never the whole batch
+			if len(c.Flip) > 1 && r.Bool() {
+				c.Flip = c.Flip[1:]
+			}
+		}
+		return c
+	}
+	heavy = append(heavy, execEvm(3, 2, "p1", false, 0), execEvm(2, 2, "", true), execSub(3, true))
+	if thorough {
+		heavy = append(heavy, execSub(2, false), execEvm(3, 1, "p1", false, 0), execEvm(4, 2, "", true), execEvm(4, 2, "p1", true, 1), execEvm(3, 3, "p1", true),
+			execSub(4, true), execSub(1, false))
+	}
+	sigStart := len(out)
 	// --- signatures -----------------------------------------------------------------------------------
 	for i := 0; i < 60*mul; i++ {
 		out = append(out, shortSig(r, false, false))
@@ -421,6 +600,14 @@ func gen(r *vgen.Rng, tier string) []Case {
 	for i := 0; i < 10*mul; i++ {
 		out = append(out, Case{Mode: "kec", Msg: hex.EncodeToString(r.Bytes(r.Intn(700)))})
 	}
+	// one heavy case per shard of signature cases
+	for i, h := range heavy {
+		pos := sigStart + shardSize/2 + i*shardSize
+		if pos > len(out) {
+			pos = len(out)
+		}
+		out = append(out[:pos], append([]Case{h}, out[pos:]...)...)
+	}
 	return out
 }
 
@@ -454,11 +641,26 @@ func coq(c Case, o Obs) string {
 		}
 		return "Sig " + o.R + "%N " + o.S + "%N " + fmt.Sprintf("%d%%N", o.Recid) + " " + hexLit(o.SigEvm) + " " + hexLit(o.SigSub) + " " +
 			vgen.Bool(o.Recovered && o.PassedOK)
+	case "multi":
+		return "Multi " + vgen.ListOf(c.Tuples, func(t Tuple) string {
+			via := map[string]string{"direct": "Direct", "evm": "Evm", "substrate": "Substrate"}[t.Via]
+			return "(Tup " + via + " " + vgen.Str(t.Version) + " " + fmt.Sprintf("%d%%N", t.Chain) + " " + hexLit(t.Contract) + " " + vgen.ListOf(t.Props, coqProp) + ")"
+		}) + " " + vgen.ListOf(o.Seen, func(s Seen) string { return vgen.Pair(vgen.Nat(s.Idx), hexLit(s.Digest)) })
+	case "exec":
+		via := map[string]string{"evm": "Evm", "substrate": "Substrate"}[c.Via]
+		return "Exec " + via + " " + fmt.Sprintf("%d%%N", c.Chain) + " " + hexLit(c.Contract) + " " + vgen.ListOf(o.Sessions, func(s SessObs) string {
+			return "(Sess " + vgen.Str(s.Sid) + " " + vgen.ListOf(s.Batch, coqProp) + " " + hexLit(s.Signed) + " " + vgen.ListOf(s.Submitted, coqProp) + ")"
+		}) + " " + vgen.Bool(o.Complete)
+	case "submit":
+		return "Submit " + fmt.Sprintf("%d%%N", c.Chain) + " " + hexLit(c.Contract) + " " + vgen.ListOf(c.Props, coqProp) + " " +
+			vgen.ListOf(o.SubEvm, coqProp) + " " + vgen.ListOf(o.SubSub, coqProp) + " " + vgen.Bool(o.PassedOK)
 	case "sigraw":
 		return "SigRaw " + hexLit(c.R) + " " + hexLit(c.S) + " " + hexLit(c.Rec) + " " + optHex(o.PanicEvm, o.SigEvm) + " " + optHex(o.PanicSub, o.SigSub)
 	}
 	panic("mode")
 }
+
+const shardSize = 24
 
 func main() {
 	zerolog.SetGlobalLevel(zerolog.Disabled)
@@ -469,8 +671,14 @@ func main() {
 		Run:       run,
 		Coq:       coq,
 		Kind: func(c Case) string {
-			if c.Mode == "digest" {
-				return "digest-" + c.Via
+			switch c.Mode {
+			case "digest", "exec":
+				return c.Mode + "-" + c.Via
+			case "multi":
+				if c.Workers > 0 {
+					return "multi-concurrent"
+				}
+				return "multi-sequence"
 			}
 			return c.Mode
 		},
@@ -480,10 +688,14 @@ func main() {
 				return len(c.Props) > 0
 			case "kec":
 				return len(c.Msg) > 0
+			case "multi":
+				return len(c.Tuples) > 1
+			case "exec":
+				return len(o.Sessions) > 0
 			}
 			return true
 		},
-		Rule: "digest: batches of 0..5 proposals (data lengths 0,1,31,32,33,135,136,137,300 and random; domains 0/1/255; nonces 0/1/2^63/2^64-1; resource ids zero/ff/random) x chain ids (0,1,2^63-1,random) x contracts (zero, ff, random) through chains.ProposalsHash, BridgeContract.ProposalsHash and Pallet.ProposalsHash, plus base batches with single-field neighbours (order, version, chain id, contract); sig: real secp256k1 signatures (with forced leading-zero r / s) assembled by the real executeBatch and executeProposal and recovered with crypto.SigToPub; sigsyn: boundary and random r,s; sigraw: arbitrary slices as coded; kec: crypto.Keccak256 on every length 0..300. distinct = distinct input JSON; non-trivial = non-empty batch / non-empty message / every signature case",
-		ShardSize: 24,
+		Rule:      "digest: batches of 0..5 proposals (data lengths 0,1,31,32,33,135,136,137,300 and random; domains 0/1/255; nonces 0/1/2^63/2^64-1; resource ids zero/ff/random) x chain ids (0,1,2^63-1,random) x contracts (zero, ff, random) through chains.ProposalsHash, BridgeContract.ProposalsHash and Pallet.ProposalsHash, plus base batches with single-field neighbours (order, version, chain id, contract); sig: real secp256k1 signatures (with forced leading-zero r / s) assembled by the real executeBatch and executeProposal and recovered with crypto.SigToPub; sigsyn: boundary and random r,s; sigraw: arbitrary slices as coded; kec: crypto.Keccak256 on every length 0..300; multi: 4-6 tuples differing pairwise in one component hashed by the real entry points in one process in a sequence with repetitions and by 4-16 goroutines concurrently; submit: the real executeBatch (through the real BridgeContract.ExecuteProposals, call data decoded) / executeProposal on 2-4-member batches with some or all members executed when the signature arrives; exec: three relayers run the real EVM / Substrate Executor.Execute with the real coordinator and real threshold ECDSA (multi-batch deliveries, GOMAXPROCS(1) dispatch with a failing digest request, members executed at delivery or between hashing and signature, equal nonces from different origins), per session the signed digest (ecrecover) and the submitted batch. distinct = distinct input JSON; non-trivial = non-empty batch / non-empty message / every signature case",
+		ShardSize: shardSize,
 	})
 }
